@@ -188,6 +188,11 @@ func genInputs(kind string, seed int64, n int) []N {
 			add(ast.Mutate(r, rnd))
 		}
 	case "cyclic":
+		// a builtin that reaches itself through its own callback argument (no script frame in between)
+		add("l := [0]\nm := l.map\nl[0] = m\nl.map(m)")
+		add("l := [0]\nm := l.each\nl[0] = m\nl.each(m)")
+		add("l := [0]\nm := l.filter\nl[0] = m\nl.filter(m)")
+		add("l := [0]\nl[0] = l.map\nl.map(l[0])\nl.map(l.map)")
 		for _, s := range cyclicSetups {
 			for _, o := range cyclicOps {
 				add(s + o)
